@@ -2631,6 +2631,10 @@ impl SctpInner {
                 let closed = DataChannelState::Closed as usize;
                 if dc.state.swap(closed, Ordering::SeqCst) != closed {
                     dc.send_event(DataChannelEvent::Close);
+                    // End the event stream like every other closer does: the teardown paths
+                    // skip a channel that is already Closed, so nobody else would ever drop
+                    // the sender and a pending recv() would outlive even close().
+                    dc.close_channel();
                 }
             }
         }
